@@ -11,17 +11,19 @@ Definition obj_bad_prop (s : state) (o : nat) : Prop :=
 Lemma in_bad_iff : forall s q, in_bad s q = true <-> undriven s q \/ stray_source s q.
 Proof.
   intros s q. unfold in_bad, undriven, stray_source.
+  destruct (wbidir s (pwire s q)); cbn [orb]; [split; auto|].
   destruct (wsource s (pwire s q)) as [sp|]; [|split; auto].
   rewrite negb_true_iff, !orb_false_iff. split.
   - intros [[A B] C]. right. exists sp. repeat split; auto; intros HI; apply memb_In in HI; congruence.
-  - intros [A|[sp' [E [A [B C]]]]]; [discriminate|]. inversion E; subst sp'. repeat split.
+  - intros [[A|A]|[sp' [E [A [B C]]]]]; try discriminate. inversion E; subst sp'. repeat split.
     + destruct (memb sp (oin s (pparent s sp))) eqn:M; auto. apply memb_In in M. tauto.
     + destruct (memb sp (oout s (pparent s sp))) eqn:M; auto. apply memb_In in M. tauto.
     + destruct (memb sp (oinout s (pparent s sp))) eqn:M; auto. apply memb_In in M. tauto.
 Qed.
 Lemma out_bad_iff : forall s q, out_bad s q = true <-> undriven s q.
 Proof.
-  intros s q. unfold out_bad, undriven. destruct (wsource s (pwire s q)); cbn; split; auto; discriminate.
+  intros s q. unfold out_bad, undriven. destruct (wbidir s (pwire s q)); cbn [orb]; [split; auto|].
+  destruct (wsource s (pwire s q)); cbn; split; auto; try discriminate. intros [A|A]; discriminate.
 Qed.
 Lemma obj_bad_iff : forall s o, obj_bad s o = true <-> obj_bad_prop s o.
 Proof.
@@ -100,9 +102,9 @@ Qed.
 (* in a constructed netlist the source of a wire is always listed in outPorts or inOutPorts of its block:
    the checkPort clause never fires *)
 Lemma no_stray : forall s o q,
-  Inv s -> o < nobj s -> In q (oin s o) -> ~ stray_source s q.
+  Inv s -> o < nobj s -> In q (oin s o) -> wbidir s (pwire s q) = false -> ~ stray_source s q.
 Proof.
-  intros s o q Hinv Ho Hin [sp [Hs [N1 [N2 N3]]]].
+  intros s o q Hinv Ho Hin Hb [sp [Hs [N1 [N2 N3]]]].
   destruct (i_ports s Hinv) as [P1 [P2 [P3 P4]]].
   apply P2 in Hin; auto. destruct Hin as [Hq _]. destruct (P1 q Hq) as [_ Hw].
   apply (i_src s Hinv) in Hs; auto. destruct Hs as [Hsp [_ [_ Hd]]].
@@ -122,7 +124,9 @@ Proof.
   { rewrite IFF. unfold visited, obj_bad_prop. split.
     - intros [o [B [[q [Hin [U|S]]]|[q [Hin U]]]]].
       + exists q. split; auto. exists o. auto.
-      + exfalso. destruct (below_lt s T h o B Hh). eapply no_stray; eauto.
+      + destruct (wbidir s (pwire s q)) eqn:Hb.
+        * exists q. split; [exists o; auto | left; exact Hb].
+        * exfalso. destruct (below_lt s T h o B Hh). eapply no_stray; eauto.
       + exists q. split; auto. exists o. auto.
     - intros [q [[o [B [Hin|Hin]]] U]]; exists o; split; auto; [left|right]; exists q; auto. }
   split; auto. split.
@@ -146,3 +150,33 @@ Lemma inout_port_not_visited :
   checkIntegrity (run ops_inout_unvisited) 0 = IOk /\ wsource (run ops_inout_unvisited) 0 = None /\
   oinout (run ops_inout_unvisited) 1 = [0] /\ pwire (run ops_inout_unvisited) 0 = 0.
 Proof. vm_compute. repeat split; reflexivity. Qed.
+
+(* in terms of the property's own notion "a wire that no block drives" (no_driver): exact as long as no visited
+   in/out port is attached to a BidirWire *)
+Lemma integrity_spec : forall s h,
+  Inv s -> h < nobj s -> (forall q, visited s h q -> ~ on_bidir s q) ->
+  (checkIntegrity s h = IRaise <-> exists q, visited s h q /\ no_driver s q) /\
+  (checkIntegrity s h = IOk <-> forall q, visited s h q -> ~ no_driver s q).
+Proof.
+  intros s h Hinv Hh NB. destruct (integrity_clean s h Hinv Hh) as [R A].
+  assert (E : forall q, visited s h q -> (undriven s q <-> no_driver s q)).
+  { intros q V. specialize (NB q V). unfold on_bidir in NB. unfold undriven, no_driver.
+    destruct (wbidir s (pwire s q)); [exfalso; auto|]. split; [intros [X|X]; [discriminate|auto] | auto]. }
+  split.
+  - rewrite R. split; intros [q [V U]]; exists q; split; auto; apply (E q V); auto.
+  - rewrite A. split; intros H q V U; apply (H q V); apply (E q V); auto.
+Qed.
+
+(* refutation of the unguarded clause (finding F3): a BidirWire with a driver, read by an in-port of a primitive block:
+   every wire has a driver, yet the check raises (BidirWire.getSource reads the non-existent attribute `source`) *)
+Definition ops_bidir : list op :=
+  [NewLogic None 0%Z false; NewBidir 0 0%Z 1%Z; NewLogic (Some 0) 1%Z true; NewLogic (Some 0) 2%Z true;
+   AddOut 1 0%Z 0; AddIn 2 0%Z 0].
+Lemma integrity_bidir_refuted :
+  exists ops h, h < nobj (run ops) /\ checkIntegrity (run ops) h = IRaise /\
+                forall q, q < nport (run ops) -> ~ no_driver (run ops) q.
+Proof.
+  exists ops_bidir, 0. split; [vm_compute; lia|]. split; [vm_compute; reflexivity|].
+  intros q Hq. assert (E : q = 0 \/ q = 1) by (vm_compute in Hq; lia).
+  destruct E; subst q; vm_compute; discriminate.
+Qed.
